@@ -7,6 +7,8 @@ twisted_stub.install()
 
 import itertools
 import random
+import sys
+import threading
 import warnings
 import _thread
 
@@ -45,7 +47,7 @@ RULE = ("a ThreadedWriter around a recording destination (with a failure mask ov
         "result completes, at the latest 10 s after the destination has returned for every message offered before it, and not before; once it has completed no thread that the writer started "
         "is still running 3 s later (watchdog expiries without such an observation are INCONCLUSIVE). "
         "non-trivial = schedule whose preemption fired in logwriter.py or with stop concurrent to offers; distinct by "
-        "interleaving hash")
+        "interleaving hash" " part 'oddmessages' (real OS threads): the messages offered include falsy but legal values (empty dict / bytes / text, an empty mapping subclass, 0, [], ()) and the wrapped destination raises I/O errors of every flavour on selected messages, among them BlockingIOError, InterruptedError and OSError(EAGAIN): every message offered before stopService is passed to the destination exactly once, in order.")
 ASSUMPTIONS = ["twisted is not installed: Service and deferToThreadPool are the stand-ins of vf/twisted_stub.py, which reproduce only the two "
                "behaviours ThreadedWriter relies on", "messages offered concurrently with stopService are only required to be written at most once"]
 EXHAUSTIVE_NOTE = "all one-preemption schedules for each explored priority order"
@@ -61,6 +63,7 @@ def plan(tier, seed):
     specs += [{"seed": seed, "i": i, "tier": tier, "nostderr": True} for i in range(5 if tier == "quick" else 40)]
     specs += [{"seed": seed, "i": i, "tier": tier, "fork": True} for i in range(8 if tier == "quick" else 60)]
     specs += [{"seed": seed, "i": i, "tier": tier, "launcher": True} for i in range(9 if tier == "quick" else 90)]
+    specs += [{"seed": seed, "i": i, "tier": tier, "oddmessages": True} for i in range(6 if tier == "quick" else 60)]
     return specs
 
 
@@ -1254,8 +1257,85 @@ def run_launcher(spec, res):
                                              "child_calls": rep.get("calls", [])[:40], "child_overlaps": rep.get("overlaps", [])[:5]}})
 
 
+class EmptyRecord(dict):
+    """A mapping type of the application's own that is empty (and so falsy)."""
+
+
+def run_oddmessages(spec, res):
+    """One writer under real OS threads: the messages offered include unusual but legal values (empty dict, empty bytes / text, an
+    empty mapping subclass, 0, None-free falsy values) and the wrapped destination raises I/O exceptions of every flavour - among them
+    BlockingIOError and InterruptedError, which say 'try again' to code that owns the file, not to the writer - on selected messages.
+    Every message offered before stopService is passed to the destination exactly once, in order; a raising call loses only that message."""
+    import errno
+    rng = random.Random("%s:C19:odd:%d" % (spec["seed"], spec["i"]))
+    c = res["counters"]
+    for round_ in range(8):
+        odd_pool = [{}, b"", "", EmptyRecord(), 0, [], (), False]
+        offered = []
+        for k in range(rng.randint(4, 12)):
+            if rng.random() < 0.4:
+                offered.append(rng.choice(odd_pool))
+            else:
+                offered.append({"n": k, "pad": "x" * rng.randint(0, 20)})
+        kinds = ["blocking", "interrupted", "eagain", "enospc", "timeout", "value", None, None, None]
+        plan_ = [rng.choice(kinds) for _ in offered]
+        got = []
+
+        def dest(msg, got=got, plan_=plan_):
+            i = len(got)
+            got.append(msg)
+            kind = plan_[i] if i < len(plan_) else None
+            if kind == "blocking":
+                raise BlockingIOError(errno.EAGAIN, "Resource temporarily unavailable")
+            if kind == "interrupted":
+                raise InterruptedError(errno.EINTR, "Interrupted system call")
+            if kind == "eagain":
+                raise OSError(errno.EAGAIN, "Resource temporarily unavailable")
+            if kind == "enospc":
+                raise OSError(errno.ENOSPC, "No space left on device")
+            if kind == "timeout":
+                raise TimeoutError("timed out")
+            if kind == "value":
+                raise ValueError("I/O operation on closed file.")
+        problems = []
+        import io
+        saved_err = sys.stderr
+        sys.stderr = io.StringIO()  # (the writer prints the destination's tracebacks)
+        try:
+            with warnings.catch_warnings():
+                warnings.simplefilter("ignore")
+                writer = logwriter.ThreadedWriter(dest, twisted_stub.Reactor())
+                writer.startService()
+                for m in offered:
+                    writer(m)
+                handle = writer.stopService()
+            done = threading.Event()
+            waiter = threading.Thread(target=lambda: (handle.wait(), done.set()), daemon=True)
+            waiter.start()
+            if not done.wait(60):
+                res["inconclusive"] = "oddmessages: stopService's result did not complete within 60 s"
+                return
+        except BaseException as e:
+            problems.append("offering / stopping raised %r" % (e,))
+        finally:
+            sys.stderr = saved_err
+        res["evals"] += 1
+        if len(got) != len(offered) or any(a is not b for a, b in zip(got, offered)):
+            problems.append("offered %d messages %r (the destination raises %s), the wrapped destination was called with %r" % (
+                len(offered), offered, [k for k in plan_ if k], got))
+        c["odd_messages_offered"] = c.get("odd_messages_offered", 0) + sum(1 for m in offered if not m)
+        c["destination_calls_raising_try_again_errors"] = c.get("destination_calls_raising_try_again_errors", 0) + sum(1 for k in plan_ if k in ("blocking", "interrupted", "eagain"))
+        res["nontrivial"].append(h(["odd", spec["i"], round_]))
+        if problems:
+            res["violations"].append({"msg": "part oddmessages: " + problems[0], "mech": None, "detail": {"part": "oddmessages", "problems": problems[:3]}})
+            return
+
+
 def run_case(spec):
     res = {"evals": 0, "nontrivial": [], "counters": {}, "violations": [], "sample": None, "sets": {"interleavings": [], "preemption_lines": []}}
+    if spec.get("oddmessages"):
+        run_oddmessages(spec, res)
+        return res
     if spec.get("launcher"):
         run_launcher(spec, res)
         return res
@@ -1371,6 +1451,8 @@ def finalize(agg, tier):
         return "too few schedules / writes observed"
     if c.get("dynamic_threads_registered", 0) == 0:
         return "the writer's own threads were never registered with the scheduler"
+    if c.get("odd_messages_offered", 0) < 20 or c.get("destination_calls_raising_try_again_errors", 0) < 20:
+        return "part 'oddmessages' offered fewer than 20 falsy messages or saw fewer than 20 'try again' I/O errors from the destination"
     if not any(l.startswith("logwriter.py") for l in agg["sets"].get("preemption_lines", {})):
         return "no preemption landed inside eliot/logwriter.py"
     if c.get("messages_written_in_a_forked_child", 0) == 0:
